@@ -198,6 +198,15 @@ func runC19(res *result) {
 			{"deep-source-root,cwd=src,default-out", srcB, "main.frugal", ""},
 			{"cwd=src,default-out", srcA, "main.frugal", ""},
 		}
+		// a directory that holds different files under the names of the program's includes: used as
+		// the working directory it must not influence how the includes of the real program resolve
+		decoy := filepath.Join(base, "decoy")
+		os.MkdirAll(decoy, 0o755)
+		for _, f := range prog.Files[1:] {
+			os.WriteFile(filepath.Join(decoy, f.Name), []byte("namespace go decoy\nstruct DecoyOnly {\n  1: i32 x\n}\n"), 0o644)
+		}
+		os.WriteFile(filepath.Join(decoy, "main.frugal"), []byte("struct DecoyMain {\n  1: i32 x\n}\n"), 0o644)
+		locs = append(locs, loc{"cwd=directory-with-same-named-other-files,absolute-file,absolute-out", decoy, filepath.Join(srcA, "main.frugal"), absOut + "8"})
 		var ref map[string]string
 		refName := ""
 		for _, l := range locs {
